@@ -57,7 +57,8 @@ def merge(run, outs):
 def check(run):
     quick = run.tier == 'quick'
     run.rule = ('programs: bounded-exhaustive control-flow skeletons (progen.skeleton_programs, canonical order, stride-sampled '
-                'when over the cap) + typed random programs of the C01 class (progen.random_programs); each converted with '
+                'when over the cap) + the jump-context family (every jump kind under every nesting path of if/else/try/handler/'
+                'try-finally/with/inner-loop contexts with/without trailing statements, progen.jump_context_programs) + typed random programs of the C01 class (progen.random_programs); each converted with '
                 'malt.to_graph (and malt.convert on a quarter) under option sets from recursive x {None,BUILTIN_FUNCTIONS,'
                 'EQUALITY_OPERATORS,both}; each run on inputs x decision vectors; a case = (program, config, variant, input, '
                 'decisions); non-trivial = the original run logs more than one external event')
@@ -83,10 +84,11 @@ def check(run):
                       'configs_per_program': 8, 'runs_per_program': 12, 'hashseed': 1 + run.seed})
     for k in range(nsh):
         specs.append({'seed': run.seed, 'shard': k, 'nshards': nsh,
-                      'skel_cap': 30 if quick else 300, 'skel_stmts': 4 if quick else 5, 'skel_depth': 3,
+                      'skel_cap': 45 if quick else 320, 'skel_stmts': 4 if quick else 5, 'skel_depth': 3,
                       'rich': not quick,
-                      'random_n': 14 if quick else 120, 'size': 12 if quick else 16,
-                      'budget_s': 100 if quick else 700,
+                      'jump_cap': 45 if quick else 700, 'jump_depth': 2 if quick else 3,
+                      'random_n': 20 if quick else 140, 'size': 12 if quick else 16,
+                      'budget_s': 140 if quick else 800,
                       'configs_per_program': 2 if quick else 4, 'runs_per_program': 6 if quick else 10,
                       'hashseed': (run.seed * 97 + k * 13 + 7) % 100000})
     outs = run_workers(specs, timeout=400 if quick else 1500)
@@ -96,7 +98,7 @@ def check(run):
     run.nontrivial = set(range(agg['nontrivial']))
     run.cov.update({'programs': agg['programs'], 'construct_distribution': agg['features'], 'outcome_distribution': agg['outcomes'],
                     'config_distribution': agg['configs'], 'conversion_errors': agg['convert_errors'],
-                    'skeleton_space': outs[-1].get('space'), 'workers': len(specs),
+                    'skeleton_and_jump_context_space': outs[-1].get('space'), 'workers': len(specs),
                     'hashseeds': sorted(set(s['hashseed'] for s in specs)),
                     'truncated_workers': len([o for o in outs if o.get('truncated')]),
                     'corpus_programs': len(corpus)})
